@@ -4,7 +4,7 @@ from .. import world as W
 
 ID = "C08"
 LEVEL = "exploration"
-RUNS = {"quick": 6000, "thorough": 60000}
+RUNS = {"quick": 8000, "thorough": 60000}
 RULE = ("seeded nestings of the paired events of ovni flush, nOS-V, Nanos6, NODES, MPI, TAMPI, OpenMP and kernel (1-3 models per run), "
         "random depth, 3% of the runs push to the 512-entry stack limit; 35% carry one fault: leave without enter, mismatched leave, "
         "event in a forbidden thread state, 513th push, or (lint) regions left open at the end; histories that immediately re-enter the "
